@@ -33,6 +33,7 @@ type agg struct {
 	known       map[string]int
 	wall        time.Duration
 	witnesses   int
+	selftest    string
 	reconfirmed []string
 }
 
